@@ -64,7 +64,7 @@ PROPERTIES = {
         "steps": [net("C02"), tx("txmc_streampair_c02", "verif_streampair_c02", expect=3)],
         "technique": "deviation-bounded exploration incl. finite and infinite blackholes at every datagram index; executor stall detection as lost-wake-up oracle",
         "level_text": NET_NOTE + "Oracle LIVE: L1 after any finite fault prefix (incl. 2 s blackholes of either/both directions at every index) every application task completes successfully and every finished stream reaches EOF at the peer; L2 with a blackhole that never ends (every index, every direction) each endpoint reports the connection closed no later than max(idle, 3*PTO, handshake timer)+2 ms after its last timer-restarting event and no task is left parked at the horizon; L3 an executor stall (task parked, no timer armed) is a violation.",
-        "level_note": "'Forever' is a 60-120 s virtual-time horizon; blocking kinds exercised: stream credit, connection credit, stream-count credit (peer and local limits), amplification (real TLS), congestion. PTO bound recomputed from the endpoint's own recovery_metrics events (upper bound => no false alarm).",
+        "level_note": "'Forever' is a 60-120 s virtual-time horizon; blocking kinds exercised: stream credit, connection credit, stream-count credit (peer and local limits), amplification (certificate chains of 4.4 kB / 8.3 kB that stop the server at exactly 3x until the client's own probes release it - the fault-free run must show that, x_facts counts it - and Retry), congestion; an application that pauses for almost the idle timeout and writes again; txmc streampair.c02 additionally checks RFC 9000 4.5 at the receiver (final size charged against and returned to the connection window on every accepted RESET_STREAM). PTO bound recomputed from the endpoint's own recovery_metrics events (upper bound => no false alarm).",
         "design_ref": "DESIGN.md §3 C02",
         "assumptions": ["virtual-time horizon stands for 'forever'", "fairness of the deterministic executor"],
     },
@@ -72,7 +72,7 @@ PROPERTIES = {
         "title": "ACKs name only packets really received; packet numbers always reconstruct",
         "steps": [net("C08"), tx("txmc_ackmgr", "txmc_c08_ackmgr", expect=1), seq("c08.*")],
         "technique": "deviation-bounded exploration with an ACK monitor over clear-text frames (tx ACK ranges vs. rx packet numbers, promptness deadlines)",
-        "level_text": NET_NOTE + "Oracle ACK: every range of every ACK frame an endpoint sends is a subset of the packet numbers it decrypted and processed in that space; packet numbers strictly increase per space; every ack-eliciting 1-RTT packet is covered by an ACK sent within max_ack_delay+1 ms, or within 1 ms when it arrived out of order (below an already received ack-eliciting packet, or above a remembered gap).",
+        "level_text": NET_NOTE + "Oracle ACK: every range of every ACK frame an endpoint sends is a subset of the packet numbers it decrypted and processed in that space; packet numbers strictly increase per space; every ack-eliciting 1-RTT packet is covered by an ACK sent within max_ack_delay+1 ms, or within 1 ms when it arrived out of order (below an already received ack-eliciting packet, or above a remembered gap); scenarios with max_ack_delay 200/25 ms and 25/200 ms (each endpoint is judged by the value it advertised itself); with no damaged datagram and no key update a 1-RTT decryption failure is a packet number that did not reconstruct (ack.pn_not_reconstructed; bulk one-way transfers with > 100 packets outstanding).",
         "level_note": "Exemptions derived from the record only: closing/closed endpoint; packets at or below the Largest Acknowledged of an own ACK frame that the peer acknowledged (RFC 9000 13.2.4 lets the receiver forget them); windows in which the endpoint itself sent a congestion-controlled packet within one smoothed RTT (its pacer gates all transmissions, 'allowed to send'). Observation (not a finding): s2n-quic paces ACK-only packets too, so after a large RTT sample ACKs can leave later than max_ack_delay.",
         "design_ref": "DESIGN.md §3 C08",
         "assumptions": ["small-scope hypothesis", "promptness only judged outside pacing windows"],
@@ -90,8 +90,8 @@ PROPERTIES = {
         "title": "No traffic amplification towards unvalidated or unknown peers",
         "steps": [net("C11")],
         "technique": "deviation-bounded exploration of handshakes with an amplification monitor over the datagram log",
-        "level_text": NET_NOTE + "Oracle AMP (datagram log only): until the first intact client datagram containing a Handshake packet has been delivered to the server, the server never starts a datagram once bytes sent >= 3 x bytes delivered to it from that address (every datagram counted, corrupted ones included); every client datagram carrying an Initial packet is >= 1200 bytes.",
-        "level_note": "Handshake loss/duplication/reordering/corruption patterns with k<=1 (real TLS) and k<=2 (null TLS), early application close during the handshake included. Stateless-reset / version-negotiation reply sizes (STRAY family) not yet covered in this revision.",
+        "level_text": NET_NOTE + "Oracle AMP (datagram log + the server's processed packets): until the server has processed a Handshake packet from the client (or an Initial carrying a token one of its own Retry packets to that address contained), the server never starts a datagram once bytes sent >= 3 x bytes delivered to it from that address (every datagram counted, corrupted ones included); every client datagram carrying an Initial packet is >= 1200 bytes.",
+        "level_note": "Handshake loss/duplication/reordering/corruption patterns with k<=1 (real TLS) and k<=2 (null TLS), early application close during the handshake included. The same rule applies to every further client address (rebinding / migration) until the server processed a PATH_RESPONSE from it; large certificate chains make the server reach the limit in the fault-free run; its PTO count must not grow while it stands at the limit with no client datagram arriving (amp.pto_while_blocked). A strict violation that a saturating allowance (overshoot forgotten) still permits is the known finding, reported under its own clauses. STRAY family: stateless reset strictly smaller than its trigger, Version Negotiation only for datagrams >= 1200 bytes and never in reply to Version Negotiation.",
         "design_ref": "DESIGN.md §3 C11",
         "assumptions": ["small-scope hypothesis", "test certificate chain size only"],
     },
@@ -135,7 +135,7 @@ PROPERTIES = {
         "title": "Congestion control keeps its window and sending within RFC 9002 bounds",
         "steps": [seq("c10.*"), net("C10")],
         "technique": "deviation-bounded exploration with a send-gate monitor over the event stream (independent bytes-in-flight bookkeeping vs. the reported window)",
-        "level_text": NET_NOTE + "Oracle SENDGATE: the monitor keeps its own bytes-in-flight sum from packet_sent / ack_range_received / packet_lost / key_space_discarded events; a congestion-controlled packet in normal transmission mode may only be sent while that sum is below the congestion window last reported, except one packet after a congestion event (RFC 9002 7.3.2); probes (loss-recovery mode) are exempt. CUBIC and BBR scenarios, losses at every index.",
+        "level_text": NET_NOTE + "Oracle SENDGATE: the monitor keeps its own bytes-in-flight sum from packet_sent / ack_range_received / packet_lost / key_space_discarded events; a congestion-controlled packet in normal transmission mode may only be sent while that sum is below the congestion window last reported, except one packet after a congestion event (RFC 9002 7.3.2); probes (loss-recovery mode) are exempt, MTU probes are not. CUBIC: two decreases of the reported congestion window violate the once-per-recovery-period rule when every packet declared lost at the second had been sent at or before the first (cc.second_reduction_in_recovery; decreases to the minimum window, next to an MTU change or after a migration are not judged). CUBIC and BBR scenarios, losses at every index.",
         "level_note": "seqmc c10.cubic / c10.bbr: explicit-state BFS (depth 5 quick, 6-7 thorough) over send/ack/loss/ECN/MTU/discard/idle events on the real controllers at datagram sizes 1200/1500/9000 with the window-floor, overflow, in-flight, no-increase-on-signal, one-reduction-per-round-trip, persistent-congestion-minimum and no-growth-while-application-limited clauses. Congestion-controlled = carries an ack-eliciting frame (s2n-quic's definition).",
         "design_ref": "DESIGN.md §3 C10",
         "assumptions": ["small-scope hypothesis", "event stream is faithful"],
@@ -144,8 +144,8 @@ PROPERTIES = {
         "title": "Only authentic packets have effect, and each at most once",
         "steps": [seq("c06.*"), net("C06")],
         "technique": "bounded-exhaustive tampering of real protected packets (every bit / truncation / splice) + differential deviation-bounded exploration with forged datagrams injected next to every genuine datagram",
-        "level_text": "seqmc c06.aead: for all three cipher suites and Initial keys, real encrypt+protect output is byte-compared with an independent RFC 9001 5.3/5.4 transcription on bare aws-lc primitives, and every single-bit flip, every truncation, every two-packet splice and garbage of the same size must be rejected by the real unprotect+decrypt; c06.nonce: iv xor pn is pairwise distinct over 0..5000, around 2^32 and up to 2^62-1 and matches RFC 9001 Appendix A. netmc forge family (real TLS): for every datagram index of an established transfer, all single-byte mutations (x ^01/^80/^ff), all truncations, splices with the previous datagram and garbage datagrams claiming the genuine source address are delivered just before the genuine datagram; the run must be observationally identical (application log, processed (space, pn) multiset, every transmitted packet with its ACK ranges and stream frames, close events) to the same schedule without the forgeries. Replays: every datagram re-delivered 1 ms / 60 ms / 400 ms later - no packet number reaches frame processing twice, ACKs name only processed packets (ACK monitor), data intact.",
-        "level_note": "Differential oracle needs no expected values. Stateless resets with the peer's genuine token are excluded by construction (forgeries are mutations/garbage). Cipher suite end-to-end is the one the TLS provider negotiates (component part covers all three).",
+        "level_text": "seqmc c06.aead: for all three cipher suites and Initial keys, real encrypt+protect output is byte-compared with an independent RFC 9001 5.3/5.4 transcription on bare aws-lc primitives, and every single-bit flip, every truncation, every two-packet splice and garbage of the same size must be rejected by the real unprotect+decrypt; c06.nonce: iv xor pn is pairwise distinct over 0..5000, around 2^32 and up to 2^62-1 and matches RFC 9001 Appendix A. netmc forge family (real TLS): for every datagram index of an established transfer, every single bit of the first 32 bytes and three masks (^01/^80/^ff) of every further byte, all truncations, splices with the previous datagram and garbage datagrams claiming the genuine source address are delivered just before the genuine datagram; the run must be observationally identical (application log, the payload-bearing packets processed and acknowledged per space, ECN counts, close events) to the same schedule without the forgeries. Replays: every datagram re-delivered 1 ms / 60 ms / 400 ms later - no packet number reaches frame processing twice, ACKs name only processed packets (ACK monitor), data intact.",
+        "level_note": "Differential oracle needs no expected values. Stateless resets with the peer's genuine token are excluded by construction (forgeries are mutations/garbage). Cipher suite end-to-end is the one the TLS provider negotiates (component part covers all three). Forgeries are always the last deviation of a schedule (the stateless resets / version negotiations some of them provoke shift later indices); thorough adds forgeries after every loss / duplicate / delay and of a multi-stream BBR transfer. A violating execution whose re-run has a different trace hash is accepted when every violated clause is reproduced (per-run TLS keys).",
         "design_ref": "DESIGN.md §3 C06",
         "assumptions": ["small-scope hypothesis", "aws-lc primitives are correct (trusted base of the independent transcription)"],
     },
